@@ -39,6 +39,10 @@ func (f *Frame) call(cc *ssa.CallCommon, in ssa.Instruction, resType types.Type)
 		f.safety("no-nil-deref", "(not (= "+recv.T+" 0))", in)
 		f.assume("(not (= " + recv.T + " 0))")
 		key = cc.Method.FullName()
+		// a spec keyed by the static interface type of the receiver takes precedence over the declaring interface
+		if k2 := "(" + typeKey(cc.Value.Type()) + ")." + cc.Method.Name(); tr.eng.db.Contracts[k2] != nil {
+			key = k2
+		}
 		args = append([]Val{recv}, args...)
 	} else if fn := cc.StaticCallee(); fn != nil {
 		key = fn.String()
@@ -56,6 +60,9 @@ func (f *Frame) call(cc *ssa.CallCommon, in ssa.Instruction, resType types.Type)
 			bindings = fv.Prov.Bindings
 		}
 	}
+	f.atCallAsserts(cc, in, display, args)
+	f.setPrivacy(cc, callee, bindings)
+	defer func() { f.privKeep = false; f.privWrites = nil }()
 	// 1. functions defined in the logic
 	if v, ok := f.definedCall(key, args, resType); ok {
 		return v
@@ -292,7 +299,13 @@ func (f *Frame) applyContract(c *Contract, sig *types.Signature, invoke bool, ar
 		if in != nil {
 			sigs = f.siteSigInstr(in)
 		}
-		f.addSiteW(cl.Prop, "pre."+display+"."+lbl, "precondition", cl.Src, sigs, sAnd(f.cur.R, sNot(t)), "precondition of "+c.Key)
+		for _, cj := range env.conjuncts(cl.E) {
+			ct, err := env.boolExpr(cj)
+			if err != nil {
+				continue
+			}
+			f.addSiteW(cl.Prop, "pre."+display+"."+lbl, "precondition", cl.Src, sigs+" :: "+cj.String(), sAnd(f.cur.R, sNot(ct)), "precondition of "+c.Key)
+		}
 		f.assume(t)
 	}
 	old := f.cur.St.clone()
@@ -518,7 +531,36 @@ func (f *Frame) goInstr(x *ssa.Go) {
 	}
 	if c := tr.eng.db.Contracts[key]; c != nil && c.Thread {
 		env := f.bindContractEnv(c, x.Call.Signature(), false, f.argVals(&x.Call), nil)
+		if mc, ok := x.Call.Value.(*ssa.MakeClosure); ok {
+			cf := mc.Fn.(*ssa.Function)
+			for i, b := range mc.Bindings {
+				if i < len(cf.FreeVars) {
+					bindFreeVar(tr, env, cf.FreeVars[i], f.val(b))
+				}
+			}
+		}
+		for i, cl := range c.Requires {
+			for _, cj := range env.conjuncts(cl.E) {
+				ct, err := env.boolExpr(cj)
+				if err != nil {
+					tr.errorf("%s: requires of thread %s: %v", f.fn.Name(), key, err)
+					continue
+				}
+				lbl := cl.Label
+				if lbl == "" {
+					lbl = fmt.Sprintf("req%d", i+1)
+				}
+				f.addSiteW(cl.Prop, "pre.go."+shortCalleeName(&x.Call)+"."+lbl, "precondition", cl.Src, f.siteSigInstr(x)+" :: "+cj.String(), sAnd(f.cur.R, sNot(ct)), "precondition of goroutine "+key)
+			}
+		}
+		if fn := x.Call.StaticCallee(); fn != nil {
+			ef := &effects{heaps: map[string]bool{}, ghosts: map[string]bool{}}
+			tr.bodyEffectsInto(fn, ef, 1, map[*ssa.Function]bool{fn: true})
+			f.privKeep = !ef.privAll
+			f.privWrites = ef.heaps
+		}
 		f.applyModifies(c, env, x)
+		f.privKeep, f.privWrites = false, nil
 		tr.note("goroutine with thread contract: " + key)
 		return
 	}
@@ -1145,28 +1187,47 @@ func (e *Engine) noteErrGlobal(tr *Tr, c string) {
 // ---- static effect summaries (used for loop havoc) ----
 
 type effects struct {
-	all      bool
+	all      bool // every heap that is not private to the verified package
+	privAll  bool // every private heap as well
 	heaps    map[string]bool
 	ghosts   map[string]bool
 	allGhost bool
 }
 
-func (f *Frame) callEffects(cc *ssa.CallCommon) (heaps []string, ghosts []string, allGhost bool) {
+// setAllFor records "this call may write every heap", refined by the privacy rule evaluated at this (leaf) call.
+func (tr *Tr) setAllFor(ef *effects, cc *ssa.CallCommon) {
+	ef.all = true
+	if cc == nil {
+		ef.privAll = true
+		return
+	}
+	keep, writes := tr.privacyOf(cc)
+	if !keep {
+		ef.privAll = true
+		return
+	}
+	for w := range writes {
+		ef.heaps[w] = true
+	}
+}
+
+func (f *Frame) callEffects(cc *ssa.CallCommon) (heaps []string, ghosts []string, allGhost bool, privAll bool) {
 	ef := &effects{heaps: map[string]bool{}, ghosts: map[string]bool{}}
 	f.tr.callEffectsInto(cc, ef, 0, map[*ssa.Function]bool{})
 	for g := range ef.ghosts {
 		ghosts = append(ghosts, g)
 	}
 	sort.Strings(ghosts)
-	if ef.all {
-		return nil, ghosts, ef.allGhost
-	}
-	heaps = []string{}
+	f.lastEffectHeaps = nil
 	for h := range ef.heaps {
-		heaps = append(heaps, h)
+		f.lastEffectHeaps = append(f.lastEffectHeaps, h)
 	}
-	sort.Strings(heaps)
-	return heaps, ghosts, ef.allGhost
+	sort.Strings(f.lastEffectHeaps)
+	if ef.all {
+		return nil, ghosts, ef.allGhost, ef.privAll
+	}
+	heaps = append([]string{}, f.lastEffectHeaps...)
+	return heaps, ghosts, ef.allGhost, false
 }
 
 func typeCarriesEffects(t types.Type) bool {
@@ -1204,6 +1265,9 @@ func (tr *Tr) callEffectsInto(cc *ssa.CallCommon, ef *effects, depth int, visite
 	var callee *ssa.Function
 	if cc.IsInvoke() {
 		key = cc.Method.FullName()
+		if k2 := "(" + typeKey(cc.Value.Type()) + ")." + cc.Method.Name(); tr.eng.db.Contracts[k2] != nil {
+			key = k2
+		}
 	} else if fn := cc.StaticCallee(); fn != nil {
 		key = fn.String()
 		callee = fn
@@ -1224,7 +1288,7 @@ func (tr *Tr) callEffectsInto(cc *ssa.CallCommon, ef *effects, depth int, visite
 		if key == "" {
 			// unknown func value: same treatment as in call(): all heaps, ghosts untouched (assumption: callbacks
 			// supplied by the caller do not touch locks/drive ghost state) except store-invalidated ghost maps
-			ef.all = true
+			tr.setAllFor(ef, cc)
 			tr.invalidatedGhostsInto(ef)
 			return
 		}
@@ -1237,7 +1301,7 @@ func (tr *Tr) callEffectsInto(cc *ssa.CallCommon, ef *effects, depth int, visite
 	}
 	if c := tr.eng.db.Contracts[key]; c != nil {
 		if c.ModAll {
-			ef.all = true
+			tr.setAllFor(ef, cc)
 			tr.invalidatedGhostsInto(ef)
 		}
 		for _, m := range c.Modifies {
@@ -1247,7 +1311,7 @@ func (tr *Tr) callEffectsInto(cc *ssa.CallCommon, ef *effects, depth int, visite
 			}
 			e, err := ParseExpr(m)
 			if err != nil {
-				ef.all = true
+				tr.setAllFor(ef, cc)
 				continue
 			}
 			switch e.K {
@@ -1259,7 +1323,7 @@ func (tr *Tr) callEffectsInto(cc *ssa.CallCommon, ef *effects, depth int, visite
 				}
 			default:
 				// object-level heap targets: resolve statically is not attempted
-				ef.all = true
+				tr.setAllFor(ef, cc)
 				tr.invalidatedGhostsInto(ef)
 			}
 		}
@@ -1268,6 +1332,7 @@ func (tr *Tr) callEffectsInto(cc *ssa.CallCommon, ef *effects, depth int, visite
 	if callee != nil && len(callee.Blocks) > 0 && (tr.eng.inModule(callee) || callee.Parent() != nil) {
 		if visited[callee] || depth > maxInlineDepth {
 			ef.all = true
+			ef.privAll = true
 			ef.allGhost = true
 			return
 		}
@@ -1288,7 +1353,7 @@ func (tr *Tr) callEffectsInto(cc *ssa.CallCommon, ef *effects, depth int, visite
 		carries = true
 	}
 	if carries {
-		ef.all = true
+		tr.setAllFor(ef, cc)
 		tr.invalidatedGhostsInto(ef)
 	}
 }
@@ -1310,12 +1375,20 @@ func (tr *Tr) bodyEffectsInto(fn *ssa.Function, ef *effects, depth int, visited 
 				}
 			case *ssa.MapUpdate:
 				ef.all = true
+			case *ssa.MakeClosure:
+				// a closure created here may be called by whoever receives it
+				if cf, ok := x.Fn.(*ssa.Function); ok && !visited[cf] && depth <= maxInlineDepth {
+					visited[cf] = true
+					tr.bodyEffectsInto(cf, ef, depth+1, visited)
+					delete(visited, cf)
+				}
 			case *ssa.Call:
 				tr.callEffectsInto(&x.Call, ef, depth, visited)
 			case *ssa.Defer:
 				tr.callEffectsInto(&x.Call, ef, depth, visited)
 			case *ssa.Go, *ssa.Send, *ssa.Select:
 				ef.all = true
+				ef.privAll = true
 				ef.allGhost = true
 			}
 		}
@@ -1332,4 +1405,190 @@ func (tr *Tr) wantElems() bool {
 		}
 	}
 	return false
+}
+
+// atCallAsserts evaluates `at call Callee[#k] assert|assume e` annotations of the function under contract.
+func (f *Frame) atCallAsserts(cc *ssa.CallCommon, in ssa.Instruction, display string, args []Val) {
+	if !f.top || f.contract == nil || in == nil {
+		return
+	}
+	tr := f.tr
+	full := f.callName[in] // display#k
+	for i, ac := range f.contract.AtCalls {
+		if ac.Callee != display {
+			continue
+		}
+		if ac.K != 0 && full != fmt.Sprintf("%s#%d", display, ac.K) {
+			continue
+		}
+		env := f.envAt(in.Block())
+		pn, _ := sigNames(cc.Signature(), cc.IsInvoke())
+		off := len(args) - len(pn)
+		for j, a := range args {
+			if j-off >= 0 && j-off < len(pn) {
+				env.vars["arg_"+pn[j-off]] = a
+			}
+			env.vars[fmt.Sprintf("arg%d", j)] = a
+		}
+		t, err := env.boolExpr(ac.Clause.E)
+		if err != nil {
+			tr.errorf("%s: at call %s: %v", f.fn.Name(), ac.Callee, err)
+			continue
+		}
+		if ac.Assume {
+			f.assume(t)
+			continue
+		}
+		lbl := ac.Clause.Label
+		if lbl == "" {
+			lbl = fmt.Sprintf("at.%s.%d", ac.Callee, i+1)
+		}
+		f.addSite(ac.Clause.Prop, lbl, "assert", ac.Clause.Src, "at "+full, sAnd(f.cur.R, sNot(t)))
+	}
+}
+
+func pkgOfFn(fn *ssa.Function) string {
+	for x := fn; x != nil; x = x.Parent() {
+		if x.Pkg != nil {
+			return x.Pkg.Pkg.Path()
+		}
+	}
+	if fn.Signature.Recv() != nil {
+		t := fn.Signature.Recv().Type()
+		if p, ok := t.(*types.Pointer); ok {
+			t = p.Elem()
+		}
+		if n, ok := t.(*types.Named); ok && n.Obj().Pkg() != nil {
+			return n.Obj().Pkg().Path()
+		}
+	}
+	return ""
+}
+
+func namedPkg(t types.Type) string {
+	if p, ok := t.(*types.Pointer); ok {
+		t = p.Elem()
+	}
+	if n, ok := t.(*types.Named); ok && n.Obj().Pkg() != nil {
+		if _, isStruct := n.Underlying().(*types.Struct); isStruct {
+			return n.Obj().Pkg().Path()
+		}
+	}
+	return ""
+}
+
+// privacyOf decides whether a call keeps the private (unexported) fields of the verified function's package, and which
+// of them closures passed to it may write.
+func (tr *Tr) privacyOf(cc *ssa.CallCommon) (bool, map[string]bool) {
+	P := tr.privPkg
+	if P == "" {
+		return false, nil
+	}
+	calleePkg := ""
+	if cc.IsInvoke() {
+		if cc.Method.Pkg() != nil {
+			calleePkg = cc.Method.Pkg().Path()
+		}
+	} else if fn := cc.StaticCallee(); fn != nil {
+		calleePkg = pkgOfFn(fn)
+	}
+	if calleePkg == P {
+		return false, nil
+	}
+	writes := map[string]bool{}
+	check := func(v ssa.Value) bool {
+		switch kindOf(v.Type()) {
+		case VFunc:
+			var fn *ssa.Function
+			switch x := v.(type) {
+			case *ssa.MakeClosure:
+				fn = x.Fn.(*ssa.Function)
+			case *ssa.Function:
+				fn = x
+			case *ssa.Const:
+				return true
+			default:
+				// func value of unknown origin (field, parameter): assumed not to be a closure over this package's
+				// private state when it was supplied from outside; conservatively give up when it is a local phi
+				if _, isPhi := v.(*ssa.Phi); isPhi {
+					return false
+				}
+				tr.note("func values loaded from fields/parameters are assumed not to write unexported fields of " + P)
+				return true
+			}
+			ef := &effects{heaps: map[string]bool{}, ghosts: map[string]bool{}}
+			tr.bodyEffectsInto(fn, ef, 1, map[*ssa.Function]bool{fn: true})
+			if ef.privAll {
+				return false
+			}
+			for h := range ef.heaps {
+				writes[h] = true
+			}
+			return true
+		}
+		if namedPkg(v.Type()) == P {
+			return false
+		}
+		if mi, ok := v.(*ssa.MakeInterface); ok && namedPkg(mi.X.Type()) == P {
+			return false
+		}
+		return true
+	}
+	if cc.IsInvoke() {
+		if !check(cc.Value) {
+			return false, nil
+		}
+	}
+	for _, a := range cc.Args {
+		if !check(a) {
+			return false, nil
+		}
+	}
+	return true, writes
+}
+
+// closureReachesPkg: does fn (transitively through in-module bodies) call a function of package P that is not inlined
+// into the summary, i.e. has a contract or is too large?
+func (tr *Tr) closureReachesPkg(fn *ssa.Function, P string, visited map[*ssa.Function]bool) bool {
+	if visited[fn] {
+		return false
+	}
+	visited[fn] = true
+	for _, b := range fn.Blocks {
+		for _, in := range b.Instrs {
+			var cc *ssa.CallCommon
+			switch x := in.(type) {
+			case *ssa.Call:
+				cc = &x.Call
+			case *ssa.Defer:
+				cc = &x.Call
+			case *ssa.Go:
+				cc = &x.Call
+			case *ssa.MakeClosure:
+				if cf, ok := x.Fn.(*ssa.Function); ok && tr.closureReachesPkg(cf, P, visited) {
+					return true
+				}
+			}
+			if cc == nil {
+				continue
+			}
+			if callee := cc.StaticCallee(); callee != nil {
+				if pkgOfFn(callee) == P && callee.Parent() == nil {
+					if tr.eng.db.Contracts[callee.String()] != nil || len(callee.Blocks) > maxInlineBlocks {
+						return true
+					}
+				}
+				if len(callee.Blocks) > 0 && tr.eng.inModule(callee) && tr.closureReachesPkg(callee, P, visited) {
+					return true
+				}
+			}
+		}
+	}
+	return false
+}
+
+func (f *Frame) setPrivacy(cc *ssa.CallCommon, callee *ssa.Function, bindings []Val) {
+	keep, writes := f.tr.privacyOf(cc)
+	f.privKeep = keep
+	f.privWrites = writes
 }
